@@ -263,3 +263,4 @@ more('C18', 'sibling agreement on the digit type', 'C18.n every 8-bit array of m
 more('C02', 'sibling agreement on the digit type', 'C02.o every 8-bit array of measured digits in cirq.sim is unsigned (terminal sampling and per-repetition recording agree for qudit digits >= 128)')
 more('C02', 'sibling agreement of the two confusion routines', 'C02.p each routine reads the row digits from the array it writes (entries of a confusion map act in sequence on both paths)')
 more('C18', 'unrolled-view rule on per-key shape derivation', 'C18.o per-key shapes derived with the one-key-per-operation protocols walk the operations sub-circuits stand for')
+more('C06', 'conflict-relation coherence of the merge primitive', 'C06.r the moment a component may merge into is bounded by qubits, measurement-vs-control keys both ways and measurement-vs-measurement of one key')
